@@ -1,6 +1,10 @@
-(** Properties/C01.v — placeholder statements are replaced by the loop-invariant theorems below as
-    they are proved (see Run/RecvProofs.v). *)
-From DarlingModel Require Import Run.Recv.
+(** Properties/C01.v — Derived struct receivers compute exactly the declared field mapping.
+    Statements only.  One level of a derived parser (any field list [fields], any implementers
+    [convs] of the field types, any user callables, allow_unknown_fields on or off), for EVERY
+    item list: any length, order, repetition, literals, unknown names.  [slot_spec], [spec_flat]
+    (Run/LoopProofs.v) are comprehensions over the input - no pass, no state. *)
+From DarlingModel Require Import Run.Recv Run.RecvProofs Run.LoopProofs.
+Local Open Scope list_scope.
 
 (** The declarations put every single-valued field in the "not seen" state and every
     [multiple] field at the empty list. *)
@@ -10,4 +14,43 @@ Theorem C01_initial_state :
 Proof.
   intros fields. unfold state0, finfos. cbn. rewrite !map_length. auto.
 Qed.
+
+(** After the item loop, the slot of every field is the comprehension over the items addressed
+    to that field: the conversion of the FIRST item whose name selects it (the first field, in
+    declaration order, that is neither skipped nor flattened and has that effective name) - or,
+    for a [multiple] field, of all of them in order; and the items no field claims are handed,
+    in order, to the flatten member (or dropped / reported, see C02). *)
+Theorem C01_loop_is_field_comprehension :
+  forall sugg sim interp_with interp_fn fields convs auk items st,
+    core_loop sugg sim interp_with interp_fn fields convs auk (state0 fields) items = Ok st ->
+    ps_slots st = spec_slots interp_with interp_fn fields convs items
+    /\ ps_flat st = spec_flat fields items.
+Proof.
+  intros sugg sim interp_with interp_fn fields convs auk items st H.
+  destruct (loop_is_spec sugg sim interp_with interp_fn fields convs auk items st H) as [S [_ F]]. auto.
+Qed.
+
+(** Nothing else in the input influences a field: its slot is a function of the items
+    addressed to it. *)
+Theorem C01_field_depends_only_on_own_occurrences :
+  forall interp_with interp_fn fields convs i f items items',
+    occ fields i items = occ fields i items' ->
+    slot_spec interp_with interp_fn fields convs i f items = slot_spec interp_with interp_fn fields convs i f items'.
+Proof. exact slot_depends_only_on_own_occurrences. Qed.
+
+(** The order of items is irrelevant across fields: two inputs in which every field sees the
+    same items in the same relative order, and which leave the same items unclaimed, produce the
+    same slots and the same flatten hand-off. *)
+Theorem C01_order_irrelevant_across_fields :
+  forall sugg sim interp_with interp_fn fields convs auk items items' st st',
+    core_loop sugg sim interp_with interp_fn fields convs auk (state0 fields) items = Ok st ->
+    core_loop sugg sim interp_with interp_fn fields convs auk (state0 fields) items' = Ok st' ->
+    (forall i, occ fields i items = occ fields i items') ->
+    spec_flat fields items = spec_flat fields items' ->
+    ps_slots st = ps_slots st' /\ ps_flat st = ps_flat st'.
+Proof. exact same_occurrences_same_state. Qed.
+
 Print Assumptions C01_initial_state.
+Print Assumptions C01_loop_is_field_comprehension.
+Print Assumptions C01_field_depends_only_on_own_occurrences.
+Print Assumptions C01_order_irrelevant_across_fields.
